@@ -1065,3 +1065,27 @@ Definition least_multiple_at_least (y x r : Z) : bool :=
   (y <=? r) && (r <? y + x) && (r mod x =? 0).
 
 Definition zrange (lo : Z) (n : nat) : list Z := map (fun i => lo + Z.of_nat i) (seq 0 n).
+
+(* ---- which methods the "Unspecified HTTP method" cases may use (builder.py:507-509): the methods of the fixed universe
+   (ALL_METHODS of the harness, sorted: delete get options patch post put trace = 0..6) that the RESOLVED path item does not
+   document.  A path item is either written in place or is a `$ref` to a shared definition (OpenAPI allows both); its raw
+   mapping has the method keys in the first case and the single key `$ref` in the second. ---- *)
+Definition all_methods : list N := [0; 1; 2; 3; 4; 5; 6]%N.
+
+Inductive path_item :=
+| PInline (documented : list N)
+| PRef (target_documented : list N).
+
+Definition resolved_methods (p : path_item) : list N :=
+  match p with PInline d => d | PRef d => d end.
+
+(* the keys of the raw (not $ref-resolved) mapping that are method names *)
+Definition raw_key_methods (p : path_item) : list N :=
+  match p with PInline d => d | PRef _ => [] end.
+
+Definition undocumented (d : list N) : list N :=
+  filter (fun m => negb (existsb (N.eqb m) d)) all_methods.
+
+Definition unspecified_methods (p : path_item) : list N := undocumented (resolved_methods p).
+(* sentinel: the same through the raw keys *)
+Definition unspecified_methods_raw (p : path_item) : list N := undocumented (raw_key_methods p).
